@@ -54,6 +54,23 @@ def check_one(rule_name, ra, robj, parent, child_nodes, s, c, rank, robj_used=No
             probs.append(problem("answer_depends_on_rule_object_history", case,
                                  expected={"index": idx, "exception": type(exc).__name__ if exc else None},
                                  observed={"index": idx2, "exception": repr(exc2) if exc2 else None}, rule=rule_name))
+        elif isinstance(idx2, int) and not isinstance(idx2, bool) and 0 <= idx2 <= len(s):
+            # ... and after the child has been put there (the parent object stays the one that was validated), the question
+            # for a further child is answered for the children the parent has NOW
+            parent.add_child(Node(c, id="ins"), idx2)
+            s2 = s[:idx2] + (c,) + s[idx2:]
+            for c2 in [a for a in ra.names if a != c][:2]:
+                try:
+                    fresh = mrule.Rule(rule_name).child_insert_index(parent, child_nodes[c2])
+                except Exception as e:  # noqa
+                    fresh = type(e).__name__
+                try:
+                    used = robj_used.child_insert_index(parent, child_nodes[c2])
+                except Exception as e:  # noqa
+                    used = type(e).__name__
+                if used != fresh:
+                    probs.append(problem("answer_depends_on_rule_object_history", dict(case, then_inserted_at=idx2, second_candidate=c2),
+                                         expected={"index": fresh, "children_now": list(s2)}, observed={"index": used}, rule=rule_name))
         parent.children = [child_nodes[a] for a in s]
     if c == e2.FOREIGN:
         if not isinstance(exc, ChildNotAllowedError):
